@@ -8,6 +8,10 @@ function's outcome or the exception it raised, and multiset equality with the se
 Workloads: (a) the real `parproc()`/`parallel_proc()` generator driven under a deterministic executor
 whose completion schedule is a decision sequence, enumerated depth-first to exhaustion per
 (payload count, workers, raising subset); (b) real ProcessPoolExecutor runs in a child process.
+(c) disturbed runs in both: the consumer abandons a run (stop event of a Result / close), or a payload
+cannot be carried to a captured result (not picklable, undeclared exception); judged by the relaxed
+oracle `check_disturbed`, and - the point of them - followed in the same process by ordinary runs that
+are judged completely (call sequences), and checked for duplicates (a loop that starts over).
 DESIGN.md section 3/C18.
 """
 from __future__ import annotations
@@ -33,6 +37,16 @@ RULE = ('cases = one run of the real parallel loop (tatsu.parproc.parproc / para
         'exception kind, raises() declaration, entry point, pickable, extra args and as_completed hand-out order rotate '
         'with the configuration index. sampled slice: seeded random decision sequences for n=5..10, workers 1..4. '
         'real slice: seeded (n<=200, workers 1..16|None, sleeps, raising probability) with real process pools. '
+        'disturbed runs (all three slices): a run whose consumer abandons it after k results (sets the stop event that every '
+        'Result carries and goes on iterating, sets it and closes the generator, or only closes it), and a run in which one '
+        'or two payloads cannot be carried to a captured result (payload or outcome that cannot be pickled - a lock, a local '
+        'function - or an exception its raises() does not declare), placed inside and beyond the submission window of '
+        '1+workers; such a run is judged by the relaxed oracle (never two results for a payload, nothing foreign, every '
+        'delivered result of an ordinary payload correct, complete if it ends normally and was not abandoned; how it ends is '
+        'counted, not judged). call sequences: every deterministic tree is enumerated after a run of the same process that '
+        'its consumer stopped, every fifth sampled schedule is preceded by a disturbed run, and each real-pool child process '
+        'interleaves disturbed cases (kind rotating with shard and position) with ordinary cases and 0..2-payload cases, '
+        'all judged completely. '
         'non-trivial = the run went through the executor (n>=2); distinct by (configuration, completion order, yield order) '
         'in the deterministic slices and by case in the real slice')
 ASSUMPTIONS = [
@@ -42,8 +56,18 @@ ASSUMPTIONS = [
     'the blocking point of concurrent.futures (threading.Event.wait looked up through concurrent.futures._base.threading) '
     'and multiprocessing.Manager (in-process Event) are replaced in the deterministic slice only; futures hash by '
     'submission number so that as_completed is replayable (both hand-out orders are exercised)',
-    'exceptions the loop is not asked to capture (reraise=True, raises() not matching) and RuntimeError/RecursionError, '
-    'which taskproc always re-raises, are outside the statement and not generated',
+    'exceptions the loop is not asked to capture are outside the statement: reraise=True and RuntimeError/RecursionError, '
+    'which taskproc always re-raises, are not generated; an exception raises() does not declare, and payloads / outcomes '
+    'that cannot cross the process boundary, are generated only in disturbed runs, where the statement is applied to the '
+    'other payloads only (no duplicate, no wrong result; whether the run ends with an exception to the caller, and which '
+    'of the others still get a result when it does, is counted and not judged; StopIteration is not used there)',
+    'what the stop event does to the run it is set in is not part of the statement: after the stop request results '
+    'carrying InterruptedError and missing results are left open (counted); runs that FOLLOW in the same process are '
+    'ordinary runs and judged completely',
+    'deterministic slice, poison configurations only: the executor models the process boundary by pickling the call '
+    'before it runs and the result after it ran (a failure completes the future with that exception, as the queue feeder / '
+    'the worker of a real pool do); concurrent.futures.ThreadPoolExecutor is replaced by the same deterministic executor '
+    '(without that boundary) so that a loop falling back to threads stays single-threaded',
     'a VisualPayload whose function raises TypeError is called a second time with the path (documented HACK); that '
     'combination is not generated',
     'the sequential mode is itself checked against the workload specification (what the task function returns/raises), '
@@ -67,19 +91,32 @@ FLOORS = {
               'det_schedules_with_captured_exception': 40000, 'det_out_of_order_schedules': 40000,
               'det_completed_outside_wait': 150000, 'det_forced_in_wait': 40000, 'det_sampled_schedules': 2000,
               'real_runs_complete': 16, 'real_results_checked': 500, 'real_out_of_order_runs': 8,
-              'distinct_nontrivial': 2500},
+              'distinct_nontrivial': 2500,
+              # disturbed runs and call sequences
+              'det_poison_trees_complete': 24, 'det_poison_schedules': 5000, 'det_poison_end_after_results': 4000,
+              'det_transport_failures': 3000, 'det_stopped_runs': 150, 'det_full_runs_after_stopped_run': 45000,
+              'det_sampled_disturbed_schedules': 400,
+              'real_stopped_runs': 3, 'real_stopped_sequential_runs': 3, 'real_full_runs_after_stopped_run': 8,
+              'real_shortcut_runs_after_stopped_run': 1, 'real_poison_runs': 5, 'real_poison_end_after_results': 2,
+              'real_full_runs_after_poison_end': 10},
     'thorough': {'det_schedules': 2000000, 'det_trees_complete': 250, 'det_refill_schedules': 1400000,
                  'det_schedules_with_captured_exception': 2000000, 'det_out_of_order_schedules': 1800000,
                  'det_completed_outside_wait': 9000000, 'det_forced_in_wait': 2000000,
                  'det_sampled_schedules': 180000, 'real_runs_complete': 190, 'real_results_checked': 7000,
-                 'real_out_of_order_runs': 100, 'distinct_nontrivial': 180000},
+                 'real_out_of_order_runs': 100, 'distinct_nontrivial': 180000,
+                 'det_poison_trees_complete': 130, 'det_poison_schedules': 100000, 'det_poison_end_after_results': 80000,
+                 'det_transport_failures': 60000, 'det_stopped_runs': 2000, 'det_full_runs_after_stopped_run': 2000000,
+                 'det_sampled_disturbed_schedules': 36000,
+                 'real_stopped_runs': 24, 'real_stopped_sequential_runs': 24, 'real_full_runs_after_stopped_run': 150,
+                 'real_shortcut_runs_after_stopped_run': 10, 'real_poison_runs': 50, 'real_poison_end_after_results': 20,
+                 'real_full_runs_after_poison_end': 150},
 }
 
 ARGSETS = [([], {}), ([7], {}), (['x', 2], {'k': 'v'})]
 N6_MASKS = [0, 63, 1, 32, 21, 42, 7, 56]
 
 
-def det_config(idx, n, workers, mask):
+def det_config(idx, n, workers, mask, extra=None):
     from ..monitors import c18_sched as S
     specs = []
     for i in range(n):
@@ -93,12 +130,29 @@ def det_config(idx, n, workers, mask):
         specs.append({'uid': 100 + i, 'exc': exc, 'cls': cls,
                       'raises': 'none' if cls == 'visual' else S.RAISES_NAMES[(idx + i) % len(S.RAISES_NAMES)]})
     args, kwargs = ARGSETS[idx % len(ARGSETS)]
-    return {'idx': idx, 'n': n, 'workers': workers, 'mask': mask, 'specs': specs, 'args': list(args), 'kwargs': dict(kwargs),
-            'entry': 'legacy' if idx % 5 == 3 else 'parproc', 'pickable': idx % 4 == 1, 'hash_rev': idx % 2 == 1}
+    cfg = {'idx': idx, 'n': n, 'workers': workers, 'mask': mask, 'specs': specs, 'args': list(args), 'kwargs': dict(kwargs),
+           'entry': 'legacy' if idx % 5 == 3 else 'parproc', 'pickable': idx % 4 == 1, 'hash_rev': idx % 2 == 1}
+    if extra and extra.get('poison'):
+        # one payload that cannot be carried to a captured result (c18_sched.POISON_KINDS); the executor models the
+        # process boundary for this configuration (a call / result that cannot be pickled fails its future)
+        pos, kind = extra['poison']
+        sp = specs[pos]
+        sp['poison'] = kind
+        if kind == 'undeclared':
+            if sp['cls'] == 'visual':
+                sp['cls'] = 'plain'
+            names = [k for k in S.EXC_KIND_NAMES if k != 'stopiter']
+            sp['exc'] = names[(idx + pos) % len(names)]
+            sp['raises'] = 'exact'
+        cfg['transport'] = True
+        cfg['disturbed'] = kind
+        cfg['extra'] = extra
+    return cfg
 
 
 def det_plan(tier):
-    """-> list of (weight, idx, n, workers, mask)"""
+    """-> list of (weight, idx, n, workers, mask[, extra])"""
+    from ..monitors import c18_sched as S
     out = []
     idx = 0
     nmax = 4 if tier == 'quick' else 5
@@ -114,6 +168,17 @@ def det_plan(tier):
         for mask in N6_MASKS:
             out.append((TREE[(6, 2)], idx, 6, 2, mask))
             idx += 1
+    # poison trees: every position of one payload that cannot be carried to a captured result, inside and beyond the
+    # submission window of 1 + workers, with none / some of the others raising captured exceptions
+    idx = 10000
+    for n in ((3, 4) if tier == 'quick' else (2, 3, 4, 5)):
+        for w in ((1, 2) if tier == 'quick' else (1, 2, 3)):
+            for pos in range(n):
+                for m in range(2 if tier == 'quick' or n == 5 else 4):
+                    mask = 0 if m == 0 else (idx * 5 + 3) % (2 ** n)
+                    kind = S.POISON_KINDS[idx % len(S.POISON_KINDS)]
+                    out.append((max(1, TREE.get((n, w), 1) // 2), idx, n, w, mask, {'poison': [pos, kind]}))
+                    idx += 1
     return out
 
 
@@ -121,10 +186,10 @@ def plan(tier, seed):
     items = sorted(det_plan(tier), key=lambda t: (-t[0], t[1]))
     k = 11 if tier == 'quick' else 56
     bins = [[0, []] for _ in range(k)]
-    for wt, idx, n, w, mask in items:                  # longest-processing-time-first
+    for wt, idx, n, w, mask, *extra in items:          # longest-processing-time-first
         b = min(bins, key=lambda x: x[0])
         b[0] += wt
-        b[1].append([idx, n, w, mask])
+        b[1].append([idx, n, w, mask, *extra])
     shards = [{'mode': 'det', 'seed': seed, 'shard': i, 'configs': sorted(b[1])} for i, b in enumerate(bins) if b[1]]
     shards.sort(key=lambda d: -sum(TREE.get((c[1], c[2]), 1) for c in d['configs']))
     ns, per = (1, 4000) if tier == 'quick' else (12, 30000)
@@ -164,7 +229,7 @@ def hook_reached(acc):
     return True
 
 
-def judge_det(acc, cfg, h, seq, seq_end, origin):
+def judge_det(acc, cfg, h, seq, seq_end, origin, abandon=None, before=None):
     """fold one scheduled run into the evidence; -> number of violations"""
     from ..monitors import c18_sched as S
     acc.evaluations += 1
@@ -201,24 +266,82 @@ def judge_det(acc, cfg, h, seq, seq_end, origin):
     if list(order) != sorted(order):
         acc.count('det_out_of_order_schedules')
     if h['executors']:
-        acc.nontriv(cfg['idx'], cfg['n'], cfg['workers'], cfg['mask'], order, yielded)
-    viol = S.check_history(cfg['specs'], tuple(cfg['args']), cfg['kwargs'], h['records'], h['end'], seq, seq_end,
-                           cfg['pickable'])
+        acc.nontriv(cfg['idx'], cfg['n'], cfg['workers'], cfg['mask'], order, yielded, json.dumps(abandon, sort_keys=True))
+    what = ''
+    if cfg.get('disturbed') or abandon:
+        # a run the statement does not determine completely: relaxed oracle, the open parts are counted
+        stop_after = abandon['after'] if abandon else None
+        viol, facts = S.check_disturbed(cfg['specs'], tuple(cfg['args']), cfg['kwargs'], h['records'], h['end'], seq, seq_end,
+                                        cfg['pickable'], stop_after=stop_after)
+        acc.count('det_disturbed_runs')
+        if abandon:
+            what = f' consumer: {abandon["how"]} after {abandon["after"]} results;'
+            acc.count('det_abandoned_runs:' + abandon['how'])
+            if h['abandon'].get('stop_set'):
+                acc.count('det_stopped_runs')
+            elif 'stop_unobserved' in h['abandon']:
+                acc.count('det_stop_unobserved')
+                acc.note('Result.stop could not be set by the consumer: ' + h['abandon']['stop_unobserved'])
+            acc.count('det_results_interrupted_after_stop', facts.get('par_interrupted_after_stop', 0))
+        if cfg.get('disturbed'):
+            what += f' payload {[s["uid"] for s in cfg["specs"] if s.get("poison")]} is {cfg["disturbed"]};'
+            acc.count('det_poison_schedules')
+            acc.count('det_poison_kind:' + cfg['disturbed'])
+            acc.count('det_transport_failures', h['transport_failures'])
+            if 'par_open_end_exception' in facts:
+                acc.count('det_poison_end:' + facts['par_open_end_exception'])
+                if facts.get('par_results_before_open_end'):
+                    acc.count('det_poison_end_after_results')
+            elif h['end'] == 'exhausted':
+                acc.count('det_poison_end:exhausted')
+            if facts.get('par_poison_results'):
+                acc.count('det_poison_payload_got_result', facts['par_poison_results'])
+        if h['thread_executors']:
+            acc.count('det_runs_with_thread_executor')
+    else:
+        viol = S.check_history(cfg['specs'], tuple(cfg['args']), cfg['kwargs'], h['records'], h['end'], seq, seq_end,
+                               cfg['pickable'])
+        if origin.get('after_stop'):
+            acc.count('det_full_runs_after_stopped_run')
     for sig, text in viol:
+        w = {'mode': 'det', 'cfg': cfg, 'prefix': [c for _, c in h['trace']], 'origin': origin}
+        if abandon:
+            w['abandon'] = abandon
+        if before:
+            w['before'] = before
         acc.violation('det:' + sig,
                       f'deterministic executor, n={cfg["n"]} workers={cfg["workers"]} raising='
                       f'{[s["uid"] for s in cfg["specs"] if s["exc"]]} entry={cfg["entry"]} completion order {list(order)} '
-                      f'yielded {list(yielded)}: {text}',
-                      {'mode': 'det', 'cfg': cfg, 'prefix': [c for _, c in h['trace']], 'origin': origin})
+                      f'yielded {list(yielded)}:{what}{" (after an earlier run the consumer stopped)" if origin.get("after_stop") else ""} {text}',
+                      w)
     return len(viol)
+
+
+def stopped_prelude(acc, idx, n, w, mask, shard):
+    """one run of the loop that its consumer stops through the stop event of the first results (public field
+    Result.stop), before the runs that are judged completely; -> (stop was set, witness part)"""
+    from ..monitors import c18_sched as S
+    cfg = det_config(idx, max(n, 3), w, mask % (2 ** max(n, 3)))
+    abandon = {'after': 1 + idx % 2, 'how': ('stop', 'stop-close')[(idx // 2) % 2]}
+    seq, seq_end = S.run_sequential(cfg)
+    h = S.run_scheduled(cfg, (), abandon=abandon)
+    judge_det(acc, cfg, h, seq, seq_end, {'shard': shard, 'prelude': True}, abandon=abandon)
+    return bool(h['abandon'].get('stop_set')), [{'cfg': cfg, 'abandon': abandon}]
 
 
 def run_det(desc, acc):
     from ..monitors import c18_sched as S
     if not hook_reached(acc):
         return
-    for idx, n, w, mask in desc['configs']:
-        cfg = det_config(idx, n, w, mask)
+    for idx, n, w, mask, *extra in desc['configs']:
+        extra = extra[0] if extra else None
+        cfg = det_config(idx, n, w, mask, extra)
+        # call sequences: every tree is enumerated in a process in which the consumer of an earlier run has stopped
+        # that run; nothing of it may leak into the runs that follow
+        after_stop, before = stopped_prelude(acc, idx, n, w, mask, desc['shard'])
+        origin = {'shard': desc['shard']}
+        if after_stop:
+            origin['after_stop'] = True
         seq, seq_end = S.run_sequential(cfg)
         acc.count('det_configs')
         prefix, expect = [], None
@@ -229,16 +352,21 @@ def run_det(desc, acc):
             h = S.run_scheduled(cfg, prefix, expect=expect)
             runs += 1
             orders.add(S.completion_order(h['events']))
-            bad += 1 if judge_det(acc, cfg, h, seq, seq_end, {'shard': desc['shard']}) else 0
+            bad += 1 if judge_det(acc, cfg, h, seq, seq_end, origin, before=before if after_stop else None) else 0
             prefix, expect = S.next_prefix(h['trace'])
             if prefix is None:
-                acc.count('det_trees_complete')
+                acc.count('det_poison_trees_complete' if extra else 'det_trees_complete')
                 break
             if bad >= 5:
                 acc.count('det_trees_abandoned_after_violations')
                 break
         acc.count('det_distinct_completion_orders', len(orders))
         acc.count(f'det_schedules_n{n}', runs)
+        if extra and n >= 4 and w == 2 and extra['poison'][0] == n - 1:
+            acc.sample({'slice': 'deterministic, one payload that cannot be carried to a captured result', 'n': n, 'workers': w,
+                        'poison': extra['poison'], 'schedules_enumerated': runs, 'last_end': h['end'],
+                        'last_schedule_events': [list(e) for e in h['events']][:60],
+                        'last_yielded': [[r.get('uid'), r.get('exc')] for r in h['records']]})
         if n >= 4 and mask == 5 and w == 2:
             acc.sample({'slice': 'deterministic', 'n': n, 'workers': w, 'raising_uids': [s['uid'] for s in cfg['specs'] if s['exc']],
                         'entry': cfg['entry'], 'schedules_enumerated': runs, 'distinct_completion_orders': len(orders),
@@ -262,11 +390,36 @@ def sampled_config(rng, i):
     return cfg
 
 
+def sampled_disturbed(acc, desc, i):
+    """-> witness part if the run was stopped through the stop event, else None"""
+    from ..monitors import c18_sched as S
+    rng = random.Random(h64(ID, 'sampled-disturbed', desc['seed'], desc['shard'], i))
+    cfg = sampled_config(rng, i)
+    cfg['idx'] = 200000 + i
+    kind = rng.choice(('stop', 'stop-close', 'close') + S.POISON_KINDS)
+    abandon = None
+    if kind in S.POISON_KINDS:
+        window = 1 + cfg['workers']
+        pos = rng.randrange(window, cfg['n']) if cfg['n'] > window and rng.random() < 0.7 else rng.randrange(cfg['n'])
+        cfg = dict(det_config(rng.randrange(60), cfg['n'], cfg['workers'], cfg['mask'], {'poison': [pos, kind]}),
+                   idx=cfg['idx'], p_stop=cfg['p_stop'])
+    else:
+        abandon = {'after': rng.randint(1, cfg['n'] - 1), 'how': kind}
+    seq, seq_end = S.run_sequential(cfg)
+    h = S.run_scheduled(cfg, (), rng=rng, abandon=abandon)
+    acc.count('det_sampled_disturbed_schedules')
+    judge_det(acc, cfg, h, seq, seq_end, {'shard': desc['shard'], 'i': i, 'sampled': True, 'disturbed': kind}, abandon=abandon)
+    if abandon and h['abandon'].get('stop_set'):
+        return [{'cfg': cfg, 'abandon': abandon}]
+    return None
+
+
 def run_sampled(desc, acc):
     from ..monitors import c18_sched as S
     if not hook_reached(acc):
         return
     seqs = {}
+    before = None                                        # the last run of this process that its consumer stopped
     for i in range(desc['n']):
         rng = random.Random(h64(ID, 'sampled', desc['seed'], desc['shard'], i))
         cfg = sampled_config(rng, i)
@@ -276,9 +429,17 @@ def run_sampled(desc, acc):
                 seqs.clear()
             seqs[key] = S.run_sequential(cfg)
         seq, seq_end = seqs[key]
+        if i % 5 == 2:
+            # a disturbed run first (sampled schedule): abandoned by its consumer, or with a poison payload
+            last_before = sampled_disturbed(acc, desc, i)
+            if last_before:
+                before = last_before
+        origin = {'shard': desc['shard'], 'i': i, 'sampled': True}
+        if before:
+            origin['after_stop'] = True
         h = S.run_scheduled(cfg, (), rng=rng)
         acc.count('det_sampled_schedules')
-        judge_det(acc, cfg, h, seq, seq_end, {'shard': desc['shard'], 'i': i, 'sampled': True})
+        judge_det(acc, cfg, h, seq, seq_end, origin, before=before)
         if i == 0:
             acc.sample({'slice': 'sampled schedule', 'n': cfg['n'], 'workers': cfg['workers'],
                         'events': [list(e) for e in h['events']][:80]})
@@ -323,12 +484,24 @@ def run_child(cases, scratch, tag, timeout):
 
 
 def real_cases(desc):
+    """the cases of one child process, in the order they run: ordinary cases, and after every third of them a
+    disturbed case (abandoned by its consumer / with a payload that cannot be carried to a captured result; the kind
+    rotates) followed by a small ordinary case (0..2 payloads: the shortcuts).  Everything after a disturbed case is a
+    run in a process with that history."""
     from ..monitors import c18_real as R
     out = []
+    heavy = desc.get('heavy', False)
+    j = 0
     for i in range(desc['n']):
         idx = desc['shard'] * 1000 + i
         rng = random.Random(h64(ID, 'real', desc['seed'], desc['shard'], i))
-        out.append(R.gen_case(rng, idx, desc.get('heavy', False)))
+        out.append(R.gen_case(rng, idx, heavy))
+        if i % 3 == 0:
+            kind = R.DISTURBANCES[(desc['shard'] * 3 + j) % len(R.DISTURBANCES)]
+            rng = random.Random(h64(ID, 'real-disturbed', desc['seed'], desc['shard'], j))
+            out.append(R.gen_disturbed(rng, desc['shard'] * 1000 + 500 + j, kind, heavy))
+            out.append(R.gen_case(rng, desc['shard'] * 1000 + 800 + 8 * j, heavy))      # idx % 8 == 0: n in 0..2
+            j += 1
     return out
 
 
@@ -344,8 +517,10 @@ def max_overlap(metas):
     return best
 
 
-def judge_real(acc, case, rec):
+def judge_real(acc, case, rec, state=None):
+    """state: what happened earlier in the same child process ({'stopped': [...cases], 'poison_end': bool})"""
     from ..monitors import c18_sched as S
+    state = state if state is not None else {}
     acc.evaluations += 1
     acc.count('real_runs')
     specs = case['specs']
@@ -353,9 +528,10 @@ def judge_real(acc, case, rec):
     par = rec['par']
     acc.peak('real_max_n', n)
     acc.count('real_workers:' + str(case['workers']))
+    disturbed = case.get('disturbed')
     if n <= 1:
         acc.count('real_shortcut_runs')
-    if rec['par_end'] == 'exhausted':
+    if rec['par_end'] == 'exhausted' and not disturbed:
         acc.count('real_runs_complete')
     acc.count('real_results_checked', sum(1 for r in par if r.get('uid') is not None))
     acc.count('real_captured_exceptions_yielded', sum(1 for r in par if r.get('exc')))
@@ -367,17 +543,70 @@ def judge_real(acc, case, rec):
         if n >= 2 and rec.get('main_pid') in pids:
             acc.count('real_runs_task_ran_in_main_process')
     order = [r['uid'] for r in par if r.get('uid') is not None]
-    if order != sorted(order):
+    if order != sorted(order) and not disturbed:
         acc.count('real_out_of_order_runs')
-    if n >= 2 and rec['par_end'] == 'exhausted':
-        acc.nontriv('real', case['idx'], n, case['workers'], [s['exc'] for s in specs])
-    viol = S.check_history(specs, tuple(case['args']), case['kwargs'], par, rec['par_end'], rec['seq'], rec['seq_end'],
-                           case['pickable'])
+    if n >= 2 and (rec['par_end'] == 'exhausted' or disturbed):
+        acc.nontriv('real', case['idx'], n, case['workers'], [s['exc'] for s in specs], disturbed)
+    what = ''
+    before = [c for c in state.get('stopped', [])][-2:]
+    if disturbed:
+        abandon = case.get('abandon')
+        viol, facts = S.check_disturbed(specs, tuple(case['args']), case['kwargs'], par, rec['par_end'], rec['seq'],
+                                        rec['seq_end'], case['pickable'], stop_after=abandon['after'] if abandon else None)
+        acc.count('real_disturbed_runs')
+        acc.count('real_disturbed:' + disturbed)
+        what = f' [{disturbed}'
+        if abandon:
+            what += f' after {abandon["after"]} results]'
+            af = rec.get('abandon', {})
+            if af.get('stop_set'):
+                acc.count('real_stopped_runs')
+                state.setdefault('stopped', []).append(case)
+            elif 'stop_unobserved' in af:
+                acc.count('real_stop_unobserved')
+                acc.note('Result.stop could not be set by the consumer: ' + af['stop_unobserved'])
+            if abandon['how'] != 'stop':
+                acc.count('real_closed_runs')
+            acc.count('real_results_interrupted_after_stop', facts.get('par_interrupted_after_stop', 0))
+            if 'seq_abandoned' in rec:
+                v2, f2 = S.check_stopped_sequential(specs, tuple(case['args']), case['kwargs'], rec['seq_abandoned'],
+                                                    rec['seq_abandoned_end'], case['pickable'], abandon['after'])
+                viol = viol + [(sig, 'stopped sequential run: ' + t) for sig, t in v2 if sig not in {x for x, _ in viol}]
+                if rec.get('seq_abandon', {}).get('stop_set'):
+                    acc.count('real_stopped_sequential_runs')
+                acc.count('real_sequential_results_interrupted_after_stop', f2.get('seq_interrupted_after_stop', 0))
+        else:
+            what += f' payloads {[s["uid"] for s in specs if s.get("poison")]}]'
+            acc.count('real_poison_runs')
+            if 'par_open_end_exception' in facts:
+                acc.count('real_poison_end:' + facts['par_open_end_exception'])
+                state['poison_end'] = True
+                if facts.get('par_results_before_open_end'):
+                    acc.count('real_poison_end_after_results')
+            elif rec['par_end'] == 'exhausted':
+                acc.count('real_poison_end:exhausted')
+            if facts.get('par_poison_results'):
+                acc.count('real_poison_payload_got_result', facts['par_poison_results'])
+            if 'seq_open_end_exception' in facts:
+                acc.count('real_poison_sequential_end:' + facts['seq_open_end_exception'])
+    else:
+        viol = S.check_history(specs, tuple(case['args']), case['kwargs'], par, rec['par_end'], rec['seq'], rec['seq_end'],
+                               case['pickable'])
+        if state.get('stopped') and rec['par_end'] == 'exhausted':
+            acc.count('real_full_runs_after_stopped_run')
+            if n <= 1:
+                acc.count('real_shortcut_runs_after_stopped_run')
+        if state.get('poison_end') and rec['par_end'] == 'exhausted':
+            acc.count('real_full_runs_after_poison_end')
+        if state.get('stopped'):
+            what = ' (after an earlier run in the same process that its consumer stopped)'
     for sig, text in viol:
+        w = {'mode': 'real', 'case': case}
+        if before and not (disturbed and case in before):
+            w['before'] = before
         acc.violation('real:' + sig,
                       f'real process pool, n={n} max_workers={case["workers"]} raising={sum(1 for s in specs if s["exc"])} '
-                      f'entry={case["entry"]}: {text}',
-                      {'mode': 'real', 'case': case})
+                      f'entry={case["entry"]}{what}: {text}', w)
     return viol
 
 
@@ -403,12 +632,13 @@ def run_real_cases(acc, cases, tag):
         bycase = {c['idx']: c for c in pending}
         done = set()
         started = None
+        state = {}                                       # history of this child process
         for r in recs:
             if 'start' in r:
                 started = r['start']
             elif 'done' in r:
                 done.add(r['done'])
-                judge_real(acc, bycase[r['done']], r)
+                judge_real(acc, bycase[r['done']], r, state)
             elif 'crash' in r:
                 done.add(r['crash'])
                 raise RuntimeError(f'real-pool child crashed in case {r["crash"]}: {r["error"]}')
@@ -456,13 +686,23 @@ def replay(w, acc):
         # the OS schedule of a real pool cannot be replayed: the case is re-run as recorded and under a sweep of
         # gc phases (allocation counter inherited by the forked workers), which reproduces gc-timing dependent aborts
         case = w['case']
+        if w.get('before'):
+            # the violation was seen after earlier runs of the same process that their consumer stopped: same sequence
+            run_real_cases(acc, [dict(c, idx=-1 - k) for k, c in enumerate(w['before'])] + [dict(case, idx=0)], 'replay-seq')
+            if acc.violations:
+                return
         variants = [dict(case, idx=0)] + [dict(case, idx=k + 1, gc_phase=p) for k, p in enumerate(range(0, 700, 100))]
         run_real_cases(acc, variants, 'replay')
         return
+    for b in w.get('before') or []:
+        S.run_scheduled(b['cfg'], (), abandon=b['abandon'])
     cfg = w['cfg']
     seq, seq_end = S.run_sequential(cfg)
-    h = S.run_scheduled(cfg, w.get('prefix', ()))
-    judge_det(acc, cfg, h, seq, seq_end, {'replay': True})
+    h = S.run_scheduled(cfg, w.get('prefix', ()), abandon=w.get('abandon'))
+    origin = {'replay': True}
+    if w.get('before'):
+        origin['after_stop'] = True
+    judge_det(acc, cfg, h, seq, seq_end, origin, abandon=w.get('abandon'), before=w.get('before'))
 
 
 MANIFEST = {
@@ -473,7 +713,10 @@ MANIFEST = {
                   '(each leaf a single-threaded, replayable run of the real generator, the real taskproc and the real '
                   'concurrent.futures.as_completed), every yielded history is checked for exactly-one-result-per-payload, the '
                   "function's outcome or exception, and multiset equality with the sequential mode; sampled schedules for larger n "
-                  'and sampled real ProcessPoolExecutor runs (n<=200, workers 1..16) complete it',
+                  'and sampled real ProcessPoolExecutor runs (n<=200, workers 1..16) complete it. Further fault classes: a payload '
+                  'that cannot be carried to a captured result at every position (trees enumerated with a pickling process '
+                  'boundary in the executor model, and real pools), and call sequences in one process in which an earlier run '
+                  'was stopped or closed by its consumer or ended with an exception to the caller',
     'level_note': 'exhaustive only within the executor model stated in the assumptions (FIFO start, <=max_workers running, '
                   'completions observable at submit/yield/wait) and the payload-count bound; the real-pool slice is a sample and '
                   'its schedules are whatever the OS produced (distinct worker pids, overlap and out-of-order completions are '
